@@ -125,6 +125,17 @@ def free_jobs(Job, cfg=CFG_NDEBUG, tier="quick"):
                 defines=list(cfg[1]), extract=ext(FREE_GROUP), tier=tier, cover=True, solver="cadical")]
 
 
+AFSP_GROUP = ["afsp_up", "afsp_down", "wildcard_char_to_ere"]
+
+
+def afsp_jobs(Job, cfg=CFG_NDEBUG, tier="quick"):
+    def J(name, entry, enforce, **kw):
+        return Job("D_%s_%s" % (name, cfg[0]), "harness/dfs_afsp.c", entry, enforce=enforce, defines=list(cfg[1]),
+                   extract=ext(AFSP_GROUP), tier=tier, **kw)
+    return [J("afsp_up", "h_up", ["afsp_up"]), J("afsp_down", "h_down", ["afsp_down"]),
+            J("wildcard_char_to_ere", "h_wild", ["wildcard_char_to_ere"], replace=["afsp_up", "afsp_down"], cover=True)]
+
+
 DFS_TRUSTED = [
     "engine/cxx2c.py: the verified text is the function body extracted from /repo on every run; rules fired and SHA-256 of the source range are in coverage.jobs[].extracted",
     "models/dfs_model.h: DataAccess::read_block as a deterministic partial function with a call log; std::function visitors as monitored calls; "
